@@ -787,6 +787,14 @@ func (o *operation) readRequestMessage(rw *responseWriter, reader io.Reader, msg
 	return nil
 }
 
+// takesOneRequestMessage reports whether the request can carry only one
+// message: the method is not client-streaming and the target's protocol has
+// no envelopes, so that a second message would be glued to the first in the
+// one body the backend reads.
+func (o *operation) takesOneRequestMessage() bool {
+	return o.serverEnveloper == nil && o.methodConf.streamType&connect.StreamTypeClient == 0
+}
+
 func (o *operation) processRequestEnvelope(envBuf envelopeBytes) (msgLen int, compressed bool, err error) {
 	env, err := o.clientEnveloper.decodeEnvelope(envBuf)
 	if err != nil {
@@ -972,6 +980,9 @@ func (r *envelopingReader) prepareNext() error {
 		if err == nil && env.compressed && r.rw.op.client.reqCompression == nil {
 			err = errors.New("message is flagged as compressed but the request declares no compression")
 		}
+		if err == nil && r.current != nil && r.rw.op.takesOneRequestMessage() {
+			err = errors.New("request has more than one message, but the method takes only one")
+		}
 		if err != nil {
 			err = malformedRequestError(err)
 			r.rw.reportError(err)
@@ -1057,6 +1068,11 @@ func (r *transformingReader) Read(data []byte) (n int, err error) {
 				r.err = err
 				return 0, err
 			}
+		} else if r.consumedFirst && r.rw.op.takesOneRequestMessage() {
+			err := malformedRequestError(errors.New("request has more than one message, but the method takes only one"))
+			r.err = err
+			r.rw.reportError(err)
+			return 0, err
 		}
 		if err := r.prepareMessage(); err != nil {
 			r.err = err
